@@ -269,6 +269,9 @@ PROPS["C11"] = {
     "rule": "case = one damaged input (C05's corruptor with emphasis on what permissive open never walks: stream start sectors/sizes, "
             "root mini stream, MiniFAT/FAT cells, sibling links; compound deviations in one input of ten) that permissive open ACCEPTS, followed by 3-12 mutating calls "
             "(create, write 0..70000 bytes, set_len to boundary sizes, overwrite, remove, remove_storage_all, metadata, flush, reads). "
+            "One case in sixteen is the alias episode: a library-written file (v3 / v4, 5 - 40 small streams) whose stream /victim is made to name the MiniFAT chain, "
+            "the directory chain or the mini stream container as its data; the stream is shortened by whole sectors, emptied, overwritten or removed, and then small streams "
+            "(the last ones first) are removed, resized, appended to, created, storages created, the file flushed. "
             "Monitors: panic hook with location (handles are leaked on unwind so that the first panic is the one reported), CPU-time "
             "watchdog 5 s/case with isolated 10x confirmation, allocation cap. non-trivial = accepted input; distinct = FNV-64 of the input",
     "assumptions": COMMON_ASSUMPTIONS + ["'never hangs' is restated as a CPU budget of 5 s per case (unchanged tree: < 10 ms), confirmed at 50 s in isolation"],
@@ -277,8 +280,8 @@ PROPS["C11"] = {
     "quick": {"budget_s": 22},
     "thorough": {"budget_s": 300},
     "floors": {
-        "quick": {"accepted_by_permissive_open": 300000, "op.remove_stream": 100000, "mutation.DirStart": 50000, "mutation.MiniFatCell": 50000, "mutation.FatCell": 50000, "mutation.size": 50000, "mutation.compound": 30000},
-        "thorough": {"accepted_by_permissive_open": 3000000},
+        "quick": {"accepted_by_permissive_open": 300000, "op.remove_stream": 100000, "mutation.DirStart": 50000, "mutation.MiniFatCell": 50000, "mutation.FatCell": 50000, "mutation.size": 50000, "mutation.compound": 30000, "alias.episodes": 8000, "alias.op.victim.set_len": 4000, "alias.op.remove_stream": 10000},
+        "thorough": {"accepted_by_permissive_open": 3000000, "alias.episodes": 80000},
     },
 }
 
